@@ -57,9 +57,10 @@ IDENT_RE = re.compile(r"(?<![\w@$:.])[A-Za-z_]\w*[?!]?")
 class Gen:
     """Stateful builder used inside one composite draw."""
 
-    def __init__(self, draw, prefix="", errors=0.1, max_depth=3, allow_defs=True, allow_classes=True, want_dbtp=True, case_in=False):
+    def __init__(self, draw, prefix="", errors=0.1, max_depth=3, allow_defs=True, allow_classes=True, want_dbtp=True, case_in=False, rich=False):
         self.draw = draw
         self.case_in = case_in
+        self.rich = rich
         self.n = 0
         self.prefix = prefix
         self.vars = {}          # name -> coarse type or frozenset of coarse types (union)
@@ -423,9 +424,22 @@ class Gen:
         ms = []
         saved_methods = self.methods
         self.methods = []
+        if False:
+            pass
         if self.chance(0.3):
             a = self.fresh("param")
             body.append({"t": "attr_accessor :%s" % a})
+        ivar = None
+        if self.rich and self.chance(0.4):
+            # instance variable set in initialize and read by a method; optional attr_reader
+            ivar = self.fresh("param")
+            ip = self.fresh("param")
+            if self.chance(0.5):
+                body.append({"t": "attr_reader :%s" % ivar})
+            body.append({"h": "def initialize(%s = %s)" % (ip, self.lit(self.any_type(True))), "b": [{"t": "@%s = %s" % (ivar, ip)}], "m": [], "e": "end"})
+            rd = self.fresh("method")
+            body.append({"h": "def %s" % rd, "b": [{"t": "@%s" % ivar}], "m": [], "e": "end"})
+            ms.append((rd, 0, False, "?"))
         for _ in range(self.i(1, 3)):
             static = self.chance(0.25)
             node, m = self.def_node(depth + 1, static=static, in_class=True)
@@ -441,6 +455,10 @@ class Gen:
             self.names.setdefault("writer", []).append(writer)
             wp = self.fresh("param")
             body.append({"h": "def %s=(%s)" % (writer, wp), "b": [{"t": wp}], "m": [], "e": "end"})
+        if self.rich and parent and parent[1] and self.chance(0.3):
+            pm = self.pick([x for x in parent[1] if not x[2]] or parent[1])
+            if not pm[2]:
+                body.append({"h": "def %s(%s)" % (pm[0], ", ".join("sp%d" % i for i in range(pm[1]))), "b": [{"t": "super"}], "m": [], "e": "end"})
         head = "class %s%s" % (cname, " < %s" % parent[0] if parent else "")
         allm = ms + ([x for x in parent[1]] if parent else [])
         self.classes.append((cname, allm, 0))
@@ -487,6 +505,117 @@ class Gen:
                {"h": "class %s" % cname, "b": [{"t": "include %s" % mname}], "m": [], "e": "end"}]
         return out + self.s_obj_call()
 
+    def s_opassign(self):
+        ints = [v for v in self.scalar_vars(I) if v not in self.locked]
+        strs = [v for v in self.scalar_vars(S) if v not in self.locked]
+        r = self.i(0, 3)
+        if r == 0 and ints:
+            return [{"t": "%s %s %s" % (self.pick(ints), self.pick(["+=", "-=", "*="]), self.expr(I, 2))}]
+        if r == 1 and strs:
+            return [{"t": "%s += %s" % (self.pick(strs), self.expr(S, 2))}]
+        if r == 2:
+            v = self.fresh("local")
+            t = self.any_type(True)
+            out = [{"t": "%s = nil" % v}, {"t": "%s ||= %s" % (v, self.lit(t))}]
+            self.vars[v] = "?"
+            return out
+        a, b = self.fresh("local"), self.fresh("local")
+        t1, t2 = self.any_type(True), self.any_type(True)
+        self.vars[a], self.vars[b] = t1, t2
+        return [{"t": "%s, %s = %s, %s" % (a, b, self.lit(t1), self.lit(t2))}]
+
+    def s_interp(self):
+        v = self.fresh("local")
+        parts = []
+        for _ in range(self.i(1, 2)):
+            src = list(self.vars)
+            parts.append("#{%s}" % (self.pick(src) if src and self.chance(0.7) else self.lit(I)))
+        e = '"%s text %s"' % (parts[0], " ".join(parts[1:]))
+        self.vars[v] = S
+        return [{"t": "%s = %s" % (v, e)}]
+
+    def s_hash_ops(self):
+        hs = [v for v, t in self.vars.items() if t == H and v not in self.locked]
+        if not hs:
+            v = self.fresh("local")
+            self.vars[v] = H
+            return [{"t": "%s = {a: 1, b: \"x\"}" % v}]
+        h = self.pick(hs)
+        r = self.i(0, 2)
+        if r == 0:
+            nv = self.fresh("local")
+            self.vars[nv] = "?"
+            return [{"t": "%s = %s[:%s]" % (nv, h, self.pick(["a", "b", "zz"]))}] + ([{"t": "dbtp %s" % nv}] if self.want_dbtp else [])
+        if r == 1:
+            return [{"t": "%s[:%s] = %s" % (h, self.pick(["a", "c"]), self.lit(self.any_type(True)))}]
+        return [{"t": "%s.each do |hk, hv|" % h, "x": 1}] and [{"h": "%s.each do |%s, %s|" % (h, self.fresh("blk"), self.fresh("blk")), "b": [{"t": "puts(1.to_s)"}], "m": [], "e": "end"}]
+
+    def s_safe_nav(self):
+        unions = [v for v, t in self.vars.items() if isinstance(t, frozenset) and N in t]
+        if not unions:
+            v = self.fresh("local")
+            t = self.any_type(True)
+            self.vars[v] = frozenset([t, N])
+            return [{"t": "%s = %s ? %s : nil" % (v, self.pick(["true", "false"]), self.lit(t))}]
+        v = self.pick(unions)
+        nv = self.fresh("local")
+        self.vars[nv] = "?"
+        return [{"t": "%s = %s&.to_s" % (nv, v)}] + ([{"t": "dbtp %s" % nv}] if self.want_dbtp else [])
+
+    def s_const(self):
+        if self.depth > 0:
+            return self.s_assign()
+        c = self.fresh("class").upper()
+        self.names["class"].pop()
+        self.names.setdefault("const", []).append(c)
+        t = self.any_type(True)
+        nv = self.fresh("local")
+        self.vars[nv] = t
+        return [{"t": "%s = %s" % (c, self.lit(t))}, {"t": "%s = %s" % (nv, c)}]
+
+    def s_begin(self, depth):
+        b = self.body(depth + 1, n=self.i(1, 2))
+        r = self.body(depth + 1, n=1)
+        ev = self.fresh("local")
+        return [{"h": "begin", "b": b, "m": [["rescue => %s" % ev, r]], "e": "end"}]
+
+    def s_range(self, depth):
+        p = self.fresh("blk")
+        saved = dict(self.vars)
+        self.vars[p] = I
+        b = self.body(depth + 1, n=self.i(1, 2))
+        self.vars = {k: (saved[k] if self.vars.get(k) == saved[k] else "?") for k in saved}
+        return [{"h": "(1..%s).each do |%s|" % (self.lit(I), p), "b": b, "m": [], "e": "end"}]
+
+    def s_lambda(self):
+        v = self.fresh("local")
+        p = self.fresh("blk")
+        self.vars[v] = "?"
+        out = [{"t": "%s = ->(%s) { %s }" % (v, p, p)}]
+        r = self.fresh("local")
+        self.vars[r] = "?"
+        out.append({"t": "%s = %s.call(%s)" % (r, v, self.lit(self.any_type(True)))})
+        return out
+
+    def s_yield_method(self, depth):
+        name = self.fresh("method")
+        p = self.fresh("blk")
+        t = self.any_type(True)
+        body = [{"t": "yield %s" % self.lit(t)}]
+        if self.chance(0.5):
+            body.append({"t": "yield %s" % self.lit(t)})
+        saved = dict(self.vars)
+        self.vars[p] = "?"
+        blk = [{"t": "dbtp %s" % p}] if self.want_dbtp else [{"t": "%s.to_s" % p}]
+        blk += self.body(depth + 1, n=self.i(0, 1))
+        self.vars = {k: (saved[k] if self.vars.get(k) == saved[k] else "?") for k in saved}
+        return [{"h": "def %s" % name, "b": body, "m": [], "e": "end"}, {"h": "%s do |%s|" % (name, p), "b": blk, "m": [], "e": "end"}]
+
+    def s_heredoc(self):
+        v = self.fresh("local")
+        self.vars[v] = S
+        return [{"t": "%s = <<~EOS\n  heredoc text\n  more\nEOS" % v}]
+
     def s_string_ml(self):
         v = self.fresh("local")
         self.vars[v] = S
@@ -520,14 +649,38 @@ class Gen:
                 return self.s_class(depth)
             if top and self.allow_classes and r < 98:
                 return self.s_module(depth)
+        if self.rich:
+            k = self.i(0, 13)
+            if k == 0:
+                return self.s_opassign()
+            if k == 1:
+                return self.s_interp()
+            if k == 2:
+                return self.s_hash_ops()
+            if k == 3:
+                return self.s_safe_nav()
+            if k == 4 and top:
+                return self.s_const()
+            if k == 5 and depth < self.max_depth:
+                return self.s_begin(depth)
+            if k == 6 and depth < self.max_depth:
+                return self.s_range(depth)
+            if k == 7:
+                return self.s_lambda()
+            if k == 8 and top and self.allow_defs:
+                return self.s_yield_method(depth)
+            if k == 9 and top:
+                return self.s_heredoc()
         if r % 7 == 0:
             return self.s_string_ml()
         return self.s_assign()
 
 
 @st.composite
-def program(draw, prefix="", min_stmts=3, max_stmts=10, errors=0.08, allow_defs=True, allow_classes=True, want_dbtp=True, max_depth=3, case_in=False):
-    g = Gen(draw, prefix=prefix, errors=errors, allow_defs=allow_defs, allow_classes=allow_classes, want_dbtp=want_dbtp, max_depth=max_depth, case_in=case_in)
+def program(draw, prefix="", min_stmts=3, max_stmts=10, errors=0.08, allow_defs=True, allow_classes=True, want_dbtp=True, max_depth=3, case_in=False, rich=None):
+    if rich is None:
+        rich = draw(st.booleans())
+    g = Gen(draw, prefix=prefix, errors=errors, allow_defs=allow_defs, allow_classes=allow_classes, want_dbtp=want_dbtp, max_depth=max_depth, case_in=case_in, rich=rich)
     n = draw(st.integers(min_stmts, max_stmts))
     tree = []
     for _ in range(n):
